@@ -419,7 +419,6 @@ func c13Origins(p *Prog, r *Report) {
 	r.Instances("D5-origin-separator", "origin split/join/suffix sites", nsites, 2)
 }
 
-
 // c13Sections: in writeProject every `updated[K] = true` is paired with the `patches[K']` lookup of
 // the same section (the lookup it dominates, before the next token is read); K and K' must be the
 // same value. Marking another origin as handled makes write() skip appending that origin's new
